@@ -363,8 +363,10 @@ def main(argv):
     ev = {'property_id': prop, 'tier': tier, 'seed': seed, 'level': 'exploration', 'coverage': cov,
           'assumptions': list(getattr(mod, 'ASSUMPTIONS', [])), 'wall_s': round(wall, 2),
           'violations': len(violations)}
-    os.makedirs(os.path.join(HERE, 'evidence'), exist_ok=True)
-    with open(os.path.join(HERE, 'evidence', prop + '.json'), 'w', encoding='utf-8') as f:
+    # evidence/ describes runs against /repo only; runs against a scratch copy (mutant self-test) go elsewhere
+    evdir = os.path.join(HERE, 'evidence') if REPO == '/repo' else os.path.join(HERE, 'out', 'evidence-scratch')
+    os.makedirs(evdir, exist_ok=True)
+    with open(os.path.join(evdir, prop + '.json'), 'w', encoding='utf-8') as f:
         json.dump(ev, f, indent=1, sort_keys=True, default=repr)
         f.write('\n')
     print('%s %s seed=%d: %d cases (%d distinct non-trivial), %d sub-oracle evaluations, %d known-finding hits, '
